@@ -121,6 +121,47 @@ class Actor:
             self.during += 1
 
 
+class InjectedPeerFailure(RuntimeError):
+    """A transient failure of the caller's model in the middle of a query (scheduler-injected)."""
+
+
+class Watcher:
+    """C05's stand-in for the actor: sits in every call-back of the caller's model (also in the clones the library
+    makes of it).  It (a) looks at the caller's arrays *while the query is running* -- what a concurrent reader of
+    the same arrays would see -- and (b) lets the k-th call-back fail, once."""
+
+    def __init__(self):
+        self.arrays = None  # name -> (array object, snapshot)
+        self.fail_at = None
+        self.calls = 0
+        self.seen_modified = None
+        self.fired = False
+
+    def arm(self, arrays, fail_at):
+        self.arrays = {k: (v, v.copy()) for k, v in arrays.items()}
+        self.fail_at = fail_at
+        self.calls = 0
+        self.seen_modified = None
+        self.fired = False
+
+    def disarm(self):
+        self.arrays = None
+        self.fail_at = None
+
+    def during_call(self):
+        if self.arrays is None:
+            return
+        self.calls += 1
+        if self.seen_modified is None:
+            for k, (a, snap) in self.arrays.items():
+                if a.shape != snap.shape or not same(a, snap):
+                    self.seen_modified = (k, self.calls)
+                    break
+        if self.fail_at is not None and self.calls == self.fail_at:
+            self.fired = True
+            raise InjectedPeerFailure("injected failure of the caller's model")
+
+
 _ACTOR = Actor()
 _CHATTY = {}
 _CHAT_METHODS = ("fit", "partial_fit", "predict", "predict_proba", "predict_freq", "predict_target_distribution", "sample_y", "sample_proba", "predict_annotator_perf")
@@ -538,8 +579,8 @@ class C05Check(PoolCheckBase):
         "get_params(deep=True) by value, model fingerprints, clone and pickle after every call. Non-trivial: at least two queries on "
         "different labellings and at least one optional argument or lazy default exercised. Distinct by (entry, model, op-kind set, probe set)."
     )
-    fault_kinds = ["requery_without_labelling", "prefit_model", "optional_args", "data_swap"]
-    probes_expected = ["lazy_default_unset", "second_query_other_data", "clone_checked", "pickle_checked", "model_fingerprinted", "arrays_compared", "clone_behaviour_compared"]
+    fault_kinds = ["requery_without_labelling", "prefit_model", "optional_args", "data_swap", "peer_failed_mid_query"]
+    probes_expected = ["lazy_default_unset", "second_query_other_data", "clone_checked", "pickle_checked", "model_fingerprinted", "arrays_compared", "clone_behaviour_compared", "arrays_observed_during_query"]
     assumptions = [
         "the position of a model's own tie-break generator (random_state_) is not part of the model fingerprint: predict is specified to draw from it",
         "exceptions raised by a query are outside this property (they abort the run, counted separately)",
@@ -575,6 +616,9 @@ class C05Check(PoolCheckBase):
                 op["ignore_partial_fit"] = g.chance(0.5)
             if "update" in ps and g.chance(0.3):
                 op["update"] = True
+            if R.model_arg(key)[0] and g.chance(0.15):
+                # the caller's model fails once, at its k-th call-back inside the query
+                op["fail_at"] = g.pick([1, 2, 3, 4, 6, 9, 15])
             r = g.random()
             if r < 0.2:
                 op["cand"] = "idx"
@@ -596,8 +640,11 @@ class C05Check(PoolCheckBase):
         e = R.ENTRIES[sc["entry"]]
         subj = e["cls"]
         np.random.seed(sc.get("run_seed", 0) % (2**32))
+        global _ACTOR
+        watcher = Watcher()
+        _ACTOR = watcher
         try:
-            w = PoolWorld(sc)
+            w = PoolWorld(sc, use_chatty=True)
         except Exception as ex:
             return ctx.result(sig=subj + "|ctor", extra={"aborted": True, "notes": [repr(ex)]})
         qs = w.qs
@@ -682,8 +729,14 @@ class C05Check(PoolCheckBase):
             arrays.update({k: v for k, v in kw.items() if isinstance(v, np.ndarray)})
             before = {k: (v.copy(), v.dtype, v.shape) for k, v in arrays.items()}
             model_fp = deep_fingerprint(w.model) if w.model is not None else None
+            watcher.arm(arrays, op.get("fail_at"))
             try:
                 res = w.call(y, op["batch"], return_utilities=op.get("ru", False), prefit=prefit, **kw)
+            except InjectedPeerFailure:
+                # the caller's model failed in the middle of the query: the frame conditions below still hold
+                ctx.fault("peer_failed_mid_query")
+                raised += 1
+                res = None
             except Exception as ex:
                 # feature-row candidates / weights are not supported by every strategy: retry is pointless, the
                 # property does not speak about exceptions
@@ -691,6 +744,13 @@ class C05Check(PoolCheckBase):
                 ctx.probe("op_raised")
                 raised += 1
                 res = None
+            finally:
+                watcher.disarm()
+            if watcher.calls:
+                ctx.probe("arrays_observed_during_query")
+            if watcher.seen_modified is not None:
+                k_mod, at_call = watcher.seen_modified
+                ctx.violate("input-array-modified", subj, f"op {t}: caller array {k_mod!r} differed from its value at call time while the query was running (seen from call-back no. {at_call} of the caller's model; restored or not, a concurrent reader sees it)", dict(cond, array=k_mod, when="during"))
             ctx.log.add("query", res if res is None or not op.get("ru") else res[0])
             # ---- frame monitor
             ctx.probe("arrays_compared")
